@@ -336,7 +336,7 @@ MANIFEST_TEXT = {
         "technique": "Lean 4 theorems on an executable model of the Cram/line parser (round trip for documents by construction + loop invariants for all texts) + exhaustive differential correspondence",
     },
     "C06": {
-        "text": "Machine-checked for all documents: the Markdown parser model never reaches a panic (every slice of extract_code_block_start is on a character boundary, every line_index-1 is defined: C06_no_crash); the tokenizer always runs to the end and its tokens partition the document - every line in exactly one token, in order, with its own index, closing line = first line starting with the opening fence (C06_tokens_cover); unterminated front-matter, foreign and scrut blocks hold all remaining lines (C06_unterminated_*). For every document of the generator's grammar - prose lines (anything that is not a fence start), front-matter while no content has started (YAML opaque), foreign code blocks (any fence length, closing line = any line starting with the opening fence, e.g. a longer fence; body may hold $ lines, shorter fences, ---), scrut blocks without command, scrut blocks with {config}, comments, $ line, > lines, expectation lines with at most one exit code line anywhere - the parser yields exactly the front-matter texts and one test per block with a command, in order, with the shell expression, expectation texts, exit code, configuration text, 1-based line number of the $ line and title as written (C06_wellformed, C06_wellformed_lines, C06_wellformed_cores; the title logic across foreign blocks and command-less blocks is stated in expectedTests); inserting a prose line, a foreign block or a command-less block behind the front-matter changes neither the document configuration nor count, order and content of the tests (C06_prose_inert, C06_other_blocks_inert, C06_inert_items). PARTIAL: documents that end in an unterminated construct are covered at token level (C06_unterminated_*) and by the by-construction oracle on all line-prefixes of generated documents, not by C06_wellformed. Tie to code: 1.04M documents per quick run (exhaustive <= 5 lines over a 15-line alphabet, exhaustive fence lines, AST-directed, prefixes, malformed) through the real MarkdownParser with 0 disagreements. Four stricter readings found by this check (C06:state-leak, C06:bare-long-fence, C06:info-string-whitespace, C06:config-dropped) were repaired by fix: commits; their witnesses stay in the harness as regression cases and as closed Lean examples.",
+        "text": "Machine-checked for all documents: the Markdown parser model never reaches a panic (every slice of extract_code_block_start is on a character boundary, every line_index-1 is defined: C06_no_crash); the tokenizer always runs to the end and its tokens partition the document - every line in exactly one token, in order, with its own index, closing line = first line starting with the opening fence (C06_tokens_cover); unterminated front-matter, foreign and scrut blocks hold all remaining lines (C06_unterminated_*). For every document of the generator's grammar - prose lines (anything that is not a fence start), front-matter while no content has started (YAML opaque), foreign code blocks (any fence length, closing line = any line starting with the opening fence, e.g. a longer fence; body may hold $ lines, shorter fences, ---), scrut blocks without command, scrut blocks with {config}, comments, $ line, > lines, expectation lines with at most one exit code line anywhere - the parser yields exactly the front-matter texts and one test per block with a command, in order, with the shell expression, expectation texts, exit code, configuration text, 1-based line number of the $ line and title as written (C06_wellformed, C06_wellformed_lines, C06_wellformed_cores; the title logic across foreign blocks and command-less blocks is stated in expectedTests); inserting a prose line, a foreign block or a command-less block behind the front-matter changes neither the document configuration nor count, order and content of the tests (C06_prose_inert, C06_other_blocks_inert, C06_inert_items). Documents whose LAST construct is unterminated (front-matter without closing --- while no content has started, foreign block, scrut block without or with a command without closing fence) are covered by the same theorem extended by a Tail (C06_wellformed_tail): the open construct is read to the end of the document and yields exactly what the closed one would (front-matter text; test with command, expectations, exit code, configuration, line number of the $ line, collected title), i.e. removing the last closing line of a well-formed document does not change the result (C06_wellformed_tail_as_closed, C06_last_closing_line_optional); an unterminated bare fence is still MissingLanguageSpecifier. The by-construction oracle covers this grammar with the stream ast-open-tail (every tail kind) and all line-prefixes of generated documents. Tie to code: 1.04M documents per quick run (exhaustive <= 5 lines over a 15-line alphabet, exhaustive fence lines, AST-directed, prefixes, malformed) through the real MarkdownParser with 0 disagreements. Four stricter readings found by this check (C06:state-leak, C06:bare-long-fence, C06:info-string-whitespace, C06:config-dropped) were repaired by fix: commits; their witnesses stay in the harness as regression cases and as closed Lean examples.",
         "design_ref": "DESIGN.md §6 C06",
         "note": "Trusted: Lean kernel + 3 standard axioms, the correspondence harness, statement reading. Expectation grammar (C08), YAML (C17), config layering (C16) and \\p{L} are parameters fed from the real code per case. Defects repaired by fix: commits a8558a7, 2f2d0a7, 0557cd9, 41f3a85 (before this check) and d36f745, d82a4b7, 0c1f918 (found by it).",
         "technique": "Lean 4 theorems on an executable model of tokenizer+parser+LineParser + differential correspondence (exhaustive small scope, AST-directed by-construction oracle, prefixes, malformed)",
